@@ -164,7 +164,7 @@ SPECS = {
   "passes": [fsm("^TestC07$"), real("^TestRealCollision$")],
   "rule": "[also pass realtcp: ordered collisions on real sockets, both dominance configurations x both orders] grid: 10 dominance configurations (local id <, >, = remote id, and identifiers more than 2^31 apart in both directions, x local AS <, > remote AS) x modes {ordered (quiescence barrier between the two OPENs), simul (both OPENs at one virtual instant), estfirst (one connection Established while the other is in OpenSent), "
           "race-est / race-ka (the first connection's KEEPALIVE at the same instant as the second's OPEN), race-close, race-bad (victim closes / sends a bad header at that instant)} x which connection gets its OPEN first x whether the inbound connection arrives before the dial completes "
-          "x 16 (quick) / 800 (thorough) seeds of virtual delays at the FSM, peer-manager and collision-select schedule points. Oracle: ordered/simul/estfirst demand the RFC 4271 6.8 survivor exactly; race modes demand at most one survivor; always: a single Cease then close on the loser, "
+          "x 48 (quick) / 3000 (thorough) seeds of virtual delays at the FSM, peer-manager and collision-select schedule points. Oracle: ordered/simul/estfirst demand the RFC 4271 6.8 survivor exactly; race modes demand at most one survivor; always: a single Cease then close on the loser, "
           "survivor saw exactly OPEN KEEPALIVE, establishes on KEEPALIVE, delivers a subsequent UPDATE, and a further inbound connection is refused silently. evidence.events lists the observed outcome per mode. distinct = distinct (configuration, mode, order, outcome, transition/callback trace).",
   "exhaustive_note": "the configuration x mode x order grid is enumerated completely on every run; schedules within a cell are sampled",
   "assumptions": ENGINE_V,
@@ -186,7 +186,7 @@ SPECS = {
   "level": "fault_enumeration",
   "passes": [fsm("^TestC11$")],
   "rule": "family strings: every fault string of length <= 3 (quick) / <= 5 (thorough) over the 12-symbol alphabet {refuse, stall, collide (the remote establishes an inbound session and closes corebgp's OpenSent connection at the same instant, later drops the session), close|reset|cease @ OpenSent|OpenConfirm|Established} (exhaustive), each applied to the successive outbound attempts of an active peer "
-          "(or to successive inbound connections of a passive one) with (idle-hold, connect-retry) drawn from {(5s,5s),(1s,30s),(30s,1s),(100ms,100ms)}, followed by a well-behaved remote; family long: random strings of length 4-6 (3000 quick, 120000 thorough); family inbound-end: an inbound Established session of an active peer ends "
+          "(or to successive inbound connections of a passive one) with (idle-hold, connect-retry) drawn from {(5s,5s),(1s,30s),(30s,1s),(100ms,100ms)}, followed by a well-behaved remote; family long: random strings of length 4-6 (3000 quick, 300000 thorough); family inbound-end: an inbound Established session of an active peer ends "
           "by close/reset/Cease; family realdial: real refused loopback dials inside the bubble observed through WithDialerControl. Oracle on the dial log (virtual timestamps from the dial hook / DialerControl): refused attempt followed by the next after idle-hold (never earlier than idle-hold-5ms, never later than idle-hold+connect-retry), "
           "stalled attempt cancelled and replaced within connect-retry, new attempt within idle-hold+connect-retry after any other fault, Established within idle-hold+connect-retry+1s of the last fault (liveness restated as bounded progress), passive peers never dial, dialling resumes <= 5 ms after an inbound session ends and a new inbound connection is served.",
   "exhaustive_note": "all fault strings up to the stated length are enumerated on every run",
